@@ -315,3 +315,131 @@ Proof.
     induction l as [|y l IH]; intros x; [reflexivity|]. destruct l as [|z l]; [reflexivity|]. cbn [app intervals length] in *. now rewrite IH. }
   rewrite L. destruct r; now rewrite ?map_length.
 Qed.
+
+(* ------------------------------------------------------------ numpy.linspace(start, stop, num, endpoint=False) *)
+Lemma clamp_Fin_inv r r' : clamp r = Fin r' -> r' = r /\ Rabs r < M.
+Proof.
+  intros H. destruct (clamp_cases r) as [[H1 E]|[[H1 E]|[H1 E]]]; rewrite E in H; try discriminate H.
+  inversion H. subst. split; [reflexivity|exact H1].
+Qed.
+
+Lemma of_nat_fin i : (Z.of_nat i < 2 ^ 62)%Z -> pfin (of_nat i) /\ 0 <= pR (of_nat i).
+Proof.
+  intros Hi. destruct (of_nat_spec i Hi) as [F E]. split; [exact F|]. rewrite E, <- rnd_0. apply rnd_le, IZR_le. lia.
+Qed.
+
+Section Linspace.
+  Variables start stop : PrimFloat.float.
+  Variable num : nat.
+  Hypothesis Fstart : pfin start.
+  Hypothesis Fstop : pfin stop.
+  Hypothesis Hle : pR start <= pR stop.
+  Hypothesis Hnum : (1 <= num)%nat.
+  Hypothesis Hnb : (Z.of_nat num < 2 ^ 62)%Z.
+  Hypothesis FD : pfin (stop - start)%float.   (* the width of the value range is representable *)
+
+  Let D := (stop - start)%float.
+  Let N := of_nat num.
+  Let stepf := (D / N)%float.
+
+  Lemma D_nonneg : 0 <= pR D.
+  Proof.
+    pose proof (VP_sub stop start (Fin (pR stop)) Fstart (VP_fin _ Fstop)) as H.
+    rewrite (VP_fin _ FD) in H. inversion H as [E]. cbn [vminus] in E. symmetry in E.
+    destruct (clamp_Fin_inv _ _ E) as [E' _]. fold D in E'. rewrite E'. rewrite <- rnd_0. apply rnd_le. lra.
+  Qed.
+
+  Lemma N_facts : pfin N /\ 1 <= pR N.
+  Proof. destruct (of_nat_spec num Hnb) as [F _]. split; [exact F|apply of_nat_pos; assumption]. Qed.
+
+  Lemma step_facts : pfin stepf /\ 0 <= pR stepf.
+  Proof.
+    destruct N_facts as [FN PN]. pose proof D_nonneg as PD.
+    pose proof (VP_div_fin D N FD FN ltac:(lra)) as H.
+    assert (B : 0 <= rnd (pR D / pR N) <= pR D).
+    { split.
+      - rewrite <- rnd_0. apply rnd_le. apply Rmult_le_pos; [lra|]. apply Rlt_le, Rinv_0_lt_compat. lra.
+      - rewrite <- (rnd_id (pR D)) at 2 by apply fmt_B2R. apply rnd_le.
+        apply Rle_trans with (pR D / 1); [|lra]. unfold Rdiv. apply Rmult_le_compat_l; [lra|]. apply Rinv_le_contravar; lra. }
+    assert (A : Rabs (rnd (pR D / pR N)) < M).
+    { rewrite Rabs_pos_eq by lra. apply Rle_lt_trans with (pR D); [lra|]. pose proof (abs_B2R_lt (Prim2B D)). unfold pR.
+      rewrite Rabs_pos_eq in H0; [exact H0|exact PD]. }
+    rewrite (clamp_fin _ A) in H. fold stepf in H. destruct (VP_Fin_pfin _ _ H) as [F E]. split; [exact F|rewrite E; lra].
+  Qed.
+
+  Definition eltA (i : nat) : PrimFloat.float := (of_nat i * stepf + start)%float.
+  Definition eltB (i : nat) : PrimFloat.float := ((of_nat i / N) * D + start)%float.
+
+  Lemma eltA_step i : (Z.of_nat (Datatypes.S i) < 2 ^ 62)%Z -> PrimFloat.leb (eltA i) (eltA (Datatypes.S i)) = true.
+  Proof.
+    intros Hi. destruct step_facts as [Fs Ps].
+    destruct (of_nat_fin i ltac:(lia)) as [Fi Pi]. destruct (of_nat_fin (Datatypes.S i) Hi) as [Fj Pj].
+    pose proof (of_nat_mono i (Datatypes.S i) ltac:(lia) Hi) as Hm.
+    unfold eltA.
+    apply (fleb_VP _ _ (vplus (pR start) (clamp (rnd (pR (of_nat i) * pR stepf))))
+                       (vplus (pR start) (clamp (rnd (pR (of_nat (Datatypes.S i)) * pR stepf))))).
+    - apply VP_add_l; [exact Fstart|apply VP_mul_fin; assumption].
+    - apply VP_add_l; [exact Fstart|apply VP_mul_fin; assumption].
+    - apply vplus_mono, clamp_mono, rnd_le. nra.
+  Qed.
+
+  Lemma quot_facts i : (Z.of_nat i < 2 ^ 62)%Z ->
+    pfin (of_nat i / N)%float /\ pR (of_nat i / N)%float = rnd (pR (of_nat i) / pR N).
+  Proof.
+    intros Hi. destruct N_facts as [FN PN]. destruct (of_nat_fin i Hi) as [Fi Pi].
+    pose proof (VP_div_fin (of_nat i) N Fi FN ltac:(lra)) as H.
+    assert (B : 0 <= rnd (pR (of_nat i) / pR N) <= pR (of_nat i)).
+    { split.
+      - rewrite <- rnd_0. apply rnd_le. apply Rmult_le_pos; [lra|]. apply Rlt_le, Rinv_0_lt_compat. lra.
+      - rewrite <- (rnd_id (pR (of_nat i))) at 2 by apply fmt_B2R. apply rnd_le.
+        apply Rle_trans with (pR (of_nat i) / 1); [|lra]. unfold Rdiv. apply Rmult_le_compat_l; [lra|]. apply Rinv_le_contravar; lra. }
+    assert (A : Rabs (rnd (pR (of_nat i) / pR N)) < M).
+    { rewrite Rabs_pos_eq by lra. apply Rle_lt_trans with (pR (of_nat i)); [lra|].
+      pose proof (abs_B2R_lt (Prim2B (of_nat i))). unfold pR in *. rewrite Rabs_pos_eq in H0; [exact H0|exact Pi]. }
+    rewrite (clamp_fin _ A) in H. apply VP_Fin_pfin in H. exact H.
+  Qed.
+
+  Lemma eltB_step i : (Z.of_nat (Datatypes.S i) < 2 ^ 62)%Z -> PrimFloat.leb (eltB i) (eltB (Datatypes.S i)) = true.
+  Proof.
+    intros Hi. destruct N_facts as [FN PN]. pose proof D_nonneg as PD.
+    destruct (quot_facts i ltac:(lia)) as [Fq Eq]. destruct (quot_facts (Datatypes.S i) Hi) as [Fq' Eq'].
+    pose proof (of_nat_mono i (Datatypes.S i) ltac:(lia) Hi) as Hm.
+    destruct (of_nat_fin i ltac:(lia)) as [_ Pi].
+    assert (Q : pR (of_nat i / N)%float <= pR (of_nat (Datatypes.S i) / N)%float).
+    { rewrite Eq, Eq'. apply rnd_le. unfold Rdiv. apply Rmult_le_compat_r; [|exact Hm]. apply Rlt_le, Rinv_0_lt_compat. lra. }
+    assert (Q0 : 0 <= pR (of_nat i / N)%float).
+    { rewrite Eq, <- rnd_0. apply rnd_le. apply Rmult_le_pos; [lra|]. apply Rlt_le, Rinv_0_lt_compat. lra. }
+    unfold eltB.
+    apply (fleb_VP _ _ (vplus (pR start) (clamp (rnd (pR (of_nat i / N)%float * pR D))))
+                       (vplus (pR start) (clamp (rnd (pR (of_nat (Datatypes.S i) / N)%float * pR D))))).
+    - apply VP_add_l; [exact Fstart|apply VP_mul_fin; assumption].
+    - apply VP_add_l; [exact Fstart|apply VP_mul_fin; assumption].
+    - apply vplus_mono, clamp_mono, rnd_le. nra.
+  Qed.
+
+  Theorem linspace_open_sorted : sorted PrimFloat.float fleb (fst (linspace_open start stop num)).
+  Proof.
+    unfold linspace_open. fold D N stepf.
+    destruct (PrimFloat.eqb stepf 0); cbn [fst].
+    - apply (sorted_map_seq eltB num 0). intros i _ Hi. apply eltB_step. lia.
+    - apply (sorted_map_seq eltA num 0). intros i _ Hi. apply eltA_step. lia.
+  Qed.
+End Linspace.
+
+(* NumberOfIntervalsSlicer: the interval starts are non-decreasing for every finite value range v0 <= v1 whose width is
+   representable and every 1 <= n < 2^62; the whole edge vector starts ++ [v1] is non-decreasing as soon as the last start does
+   not exceed v1 (that last comparison is still checked per case by the correspondence run) *)
+Theorem number_edges_sorted v0 v1 n :
+  PrimFloat.is_finite v0 = true -> PrimFloat.is_finite v1 = true -> PrimFloat.leb v0 v1 = true ->
+  PrimFloat.is_finite (v1 - v0)%float = true -> (1 <= n)%nat -> (Z.of_nat n < 2 ^ 62)%Z ->
+  let '(starts, w, edges) := number_edges v0 v1 n in
+  sorted PrimFloat.float fleb starts /\
+  (fleb (last starts v0) v1 = true -> sorted PrimFloat.float fleb edges).
+Proof.
+  intros F0 F1 L FD Hn Hb. unfold number_edges.
+  assert (S0 : sorted PrimFloat.float fleb (fst (linspace_open v0 v1 n))).
+  { apply linspace_open_sorted; auto using prim_finite.
+    apply (fleb_VP _ _ (Fin (pR v0)) (Fin (pR v1)) (VP_fin _ (prim_finite _ F0)) (VP_fin _ (prim_finite _ F1))) in L. exact L. }
+  destruct (linspace_open v0 v1 n) as [starts w]. cbn [fst] in S0. split; [exact S0|].
+  intros Hl. apply (sorted_app_last _ _ v0); [exact S0|]. intros _. exact Hl.
+Qed.
